@@ -85,6 +85,9 @@ def Table.mergeEntry (ag : Agg V A) (ovf : K) (t : Table K A) (e : K × A) : Tab
     | some slot => r.1.set ovf e.1 (ag.merge slot e.2)
     | none => r.1          -- unreachable: `resolve` returns a key that is present (`resolve_has`)
 
+/-- `LongSumAggregation` on non-negative values: `Aggregate` adds, `Merge` adds -/
+def sumAgg : Agg Int Int := { new := 0, add := fun a v => a + v, merge := fun a b => a + b }
+
 inductive Temporality
   | delta
   | cumulative
